@@ -262,6 +262,15 @@ func NtorServer(y, Y, b, B, X [32]byte, id [20]byte) (keySeed, auth [32]byte, ok
 	return
 }
 
+// NtorServerForged is what a peer WITHOUT the identity private key can
+// compute: EXP(X,y) with its own ephemeral key, and a guessed value e2 in
+// place of EXP(X,b).  (For an identity key B of small order EXP(B,x) is the
+// all-zero string for every client secret, so e2 = 0 is a correct guess.)
+func NtorServerForged(y, Y, e2, B, X [32]byte, id [20]byte) (keySeed, auth [32]byte) {
+	e1 := x25519(y, X)
+	return ntorCommon(e1, e2, B, X, Y, id)
+}
+
 func ntorCommon(e1, e2, B, X, Y [32]byte, id [20]byte) (keySeed, auth [32]byte) {
 	suffix := append([]byte{}, B[:]...)
 	suffix = append(suffix, B[:]...)
